@@ -113,6 +113,6 @@ def makeDetail (src : List Nat) (offset : Nat) (spans : List Span) (ret : List N
     let groups := groupSpans spans (-1) []
     match spliceGroups groups.length groups.reverse buf with
     | none => none
-    | some out => some (if out == ret then [] else trimSpace out)
+    | some out => let t := trimSpace out; some (if t == ret then [] else t)
 
 end DS.Detail
